@@ -824,22 +824,24 @@ IndexStack indexStackOf(const VariablePtr &variable)
 
 void recordVariableEquivalences(const ComponentPtr &component, EquivalenceMap &equivalenceMap, IndexStack &indexStack)
 {
+    auto model = owningModel(component);
     for (size_t index = 0; index < component->variableCount(); ++index) {
         auto variable = component->variable(index);
+        indexStack.push_back(index);
         for (size_t j = 0; j < variable->equivalentVariableCount(); ++j) {
-            if (j == 0) {
-                indexStack.push_back(index);
-            }
             auto equivalentVariable = variable->equivalentVariable(j);
+            // An equivalent variable that does not belong to this model has no
+            // location in it: such an equivalence cannot be recorded.
+            if (owningModel(equivalentVariable) != model) {
+                continue;
+            }
             auto equivalentVariableIndexStack = indexStackOf(equivalentVariable);
             if (equivalenceMap.count(indexStack) == 0) {
                 equivalenceMap.emplace(indexStack, std::vector<IndexStack>());
             }
             equivalenceMap[indexStack].push_back(equivalentVariableIndexStack);
         }
-        if (variable->equivalentVariableCount() > 0) {
-            indexStack.pop_back();
-        }
+        indexStack.pop_back();
     }
 }
 
